@@ -33,6 +33,12 @@ fn programs(cls: &str) -> (String, String, &'static str) {
         "ch_seq_predicate" => ("stream S = A as a\n    -> B as b\n    .where(b.x > 2)\n    .emit(ai: a.id, bi: b.id)\n".into(), "stream S = A as a\n    -> B as b\n    .where(b.x > 0)\n    .emit(ai: a.id, bi: b.id)\n".into(), "S"),
         // upstream D changes; the watched downstream stream is unchanged and must keep its window state
         "ch_upstream_only" => (format!("stream D = A\n    .where(x > 0)\n    .emit(id: id, x: x)\n\nstream S = B\n    .window(3)\n{AGG}"), format!("stream D = A\n    .where(x > 1)\n    .emit(id: id, x: x)\n\nstream S = B\n    .window(3)\n{AGG}"), "S"),
+        // changes INSIDE the source expression (operation chain textually identical)
+        "ch_src_merge_branch_filter" => ("stream S = merge(\n        stream H = A .where(x > 2),\n        stream L = B .where(x < 1)\n    )\n    .emit(id: id, x: x)\n".into(), "stream S = merge(\n        stream H = A .where(x > 0),\n        stream L = B .where(x < 1)\n    )\n    .emit(id: id, x: x)\n".into(), "S"),
+        "ch_src_step_filter" => ("stream S = A as a\n    -> B where x > 2 as b\n    .emit(ai: a.id, bi: b.id)\n".into(), "stream S = A as a\n    -> B where x > 0 as b\n    .emit(ai: a.id, bi: b.id)\n".into(), "S"),
+        "ch_src_step_all" => ("stream S = A as a\n    -> B as b\n    -> C as c\n    .emit(ai: a.id, bi: b.id, ci: c.id)\n".into(), "stream S = A as a\n    -> all B as b\n    -> C as c\n    .emit(ai: a.id, bi: b.id, ci: c.id)\n".into(), "S"),
+        "ch_src_second_type" => ("stream S = A as a\n    -> B as b\n    .emit(ai: a.id, bi: b.id)\n".into(), "stream S = A as a\n    -> C as b\n    .emit(ai: a.id, bi: b.id)\n".into(), "S"),
+        "ch_src_join_key" => ("stream SA = A\nstream SB = B\n\nstream S = join(SA, SB)\n    .on(SA.k == SB.k)\n    .window(100s)\n    .select(a: SA.id, b: SB.id)\n    .emit(a: a, b: b)\n".into(), "stream SA = A\nstream SB = B\n\nstream S = join(SA, SB)\n    .on(SA.x == SB.x)\n    .window(100s)\n    .select(a: SA.id, b: SB.id)\n    .emit(a: a, b: b)\n".into(), "S"),
         c => panic!("class {c}"),
     }
 }
